@@ -163,6 +163,7 @@ func c10r10(c *Ctx) {
 			c.check(ok, R, f.Key+": little-endian, byte j at bits 8j", f.Pos(), "shift by j*8", "the byte order of the header fields changed on one side only")
 		}
 	}
+	c10r10b(c)
 }
 
 // c14r15: the sort/heap interface methods the dump and the merge rely on.
